@@ -86,6 +86,7 @@ inline std::ostream& operator<<(std::ostream& out, const ada::url& u) {
     // exist.
     out.host_start = out.protocol_end;
     out.host_end = out.host_start;
+    out.username_end = out.host_start;
 
     if (!has_opaque_path && path.starts_with("//")) {
       // If url's host is null, url does not have an opaque path, url's path's
